@@ -484,7 +484,7 @@ pub fn eval(line: &str) -> String {
 
 /// The same loop, except that it never blocks: it still asks `can_block_update_idle_waiting` every
 /// millisecond (that call also advances the idle clock) but ticks regardless of the answer.
-fn run_hist_always_ticking(r: &mut Runner, hist: &[KEv]) {
+pub fn run_hist_always_ticking(r: &mut Runner, hist: &[KEv]) {
     for e in hist {
         match e {
             KEv::L(HEv::Press(_, y)) => {
